@@ -135,3 +135,36 @@ func (b *bag) badBagCopyShared() *bag {
 func (b *bag) badBagCopyEmpty() *bag {
 	return &bag{items: make(map[int]*rec, len(b.items)), n: b.n}
 }
+
+type budget struct {
+	left, used uint64
+}
+
+func (b *budget) goodSpend(n uint64) bool {
+	if b.left < n {
+		return false
+	}
+	b.left -= n
+	b.used += n
+	return true
+}
+
+// guard compares against a stale balance
+func (b *budget) badSpendStale(n, fee uint64) bool {
+	if b.left < n {
+		return false
+	}
+	b.left -= fee
+	b.left -= n
+	return true
+}
+
+// no guard at all
+func (b *budget) badSpendUnguarded(n uint64) {
+	b.left -= n
+}
+
+func (b *budget) goodRepay(s uint64) {
+	r := min(s, b.used)
+	b.used -= r
+}
